@@ -211,6 +211,35 @@ var immutableTypes = []struct{ pkg, name string }{
 	{"go.uber.org/zap/zapio", "Writer"},
 }
 
+// returnsFresh: f is a function of the module and each of its returns yields an object f allocated (a composite
+// literal, new) or one that a function of the same kind returned to it.
+func returnsFresh(f *ssa.Function, depth int) bool {
+	if f == nil || !curProgRoot(f) || len(f.Blocks) == 0 || depth > 3 || f.Signature.Results().Len() != 1 {
+		return false
+	}
+	n := 0
+	for _, r := range Returns(f) {
+		rv := RetVals(r)
+		if len(rv) != 1 {
+			return false
+		}
+		switch x := Strip(rv[0]).(type) {
+		case *ssa.Alloc:
+			if !x.Heap {
+				return false
+			}
+		case *ssa.Call:
+			if !returnsFresh(x.Call.StaticCallee(), depth+1) {
+				return false
+			}
+		default:
+			return false
+		}
+		n++
+	}
+	return n > 0
+}
+
 func c9Immutable(c *Ctx) {
 	// option appliers: every call of an `apply(*T)` method passes a fresh object / clone
 	applyOK := map[string]bool{}
@@ -229,6 +258,10 @@ func c9Immutable(c *Ctx) {
 			fresh := IsFresh(v)
 			if call, ok := v.(*ssa.Call); ok {
 				if cf := CalleeFunc(call); cf != nil && cf.Name() == "clone" {
+					fresh = true
+				}
+				// a constructor of the module: every one of its returns hands out the object it allocated itself
+				if sc := call.Call.StaticCallee(); sc != nil && returnsFresh(sc, 0) {
 					fresh = true
 				}
 			}
